@@ -62,6 +62,9 @@ def cases():
                             outs=[B("o", ["s1", "s2"], pv="first_non_null")])
     c["cond-scatter-all-non-null"] = PR([1, A3, T], [S("inc", [B("x", "i2")], sc=["x"], when=("pos", "x"))],
                                         outs=[B("o", "s1"), B("o", "s1", pv="all_non_null")])
+    c["cond-scatter-downstream"] = PR([1, A3, T], [S("inc", [B("x", "i2")], sc=["x"], when=("pos", "x")),
+                                                  S("pair", [B("x", "i2"), B("y", "s1")])], outs=[B("o", "s2")])
+    c["tool-default-when"] = PR([None, A3, T], [S("incd", [B("x", "i1")], when=("nn", "x"))])
     c["cond-extra-input"] = PR([3, A2, T], [S("inc", [B("x", "i1"), B("e", "i2", vf="null")], when=("nn", "e"))])
     c["cond-default-after-skip"] = PR([1, A2, T], [S("inc", [B("x", "i1")], when=("no", "x")), S("inc", [B("x", "s1", df=7)])])
     c["when-not-boolean"] = PR([1, A2, T], [S("inc", [B("x", "i1")], when=("bad", "x"))])
